@@ -138,7 +138,12 @@ def strategy(name):
     valid = gen.valid_numbers(name)
     raw = st.sampled_from(gen.seeds(name))
     dec = gen.decorations(name, st.one_of(valid, valid, raw))
-    x = st.one_of(dec, dec, valid, raw)
+    cased = st.one_of(valid, raw).flatmap(lambda v: st.sampled_from([v.lower(), v.upper(), v.swapcase(), v.capitalize()]))
+    parts = [dec, dec, valid, raw, cased]
+    extra = gen.extra_valid(name)
+    if extra is not None:
+        parts += [extra, extra]
+    x = st.one_of(*parts)
     return st.fixed_dictionaries({'mod': st.just(name), 'x': x.map(core.enc), 'fopts': fopt_strategy(name)})
 
 
